@@ -411,7 +411,8 @@ class AggregatedFrame(ProtocolDataUnit):
                 raise DecodeError("aggregated PDU length field error in AGF")
             if pdu_size > size - 2:
                 raise DecodeError("aggregated PDU length exceeds AGF size")
-            agf_pdu.append(decode(data, offset+2, pdu_size))
+            pdu = decode(data, offset+2, pdu_size, aggregated=True)
+            agf_pdu.append(pdu)
             offset, size = offset + 2 + pdu_size, size - 2 - pdu_size
         return agf_pdu
 
@@ -929,7 +930,7 @@ pdu_type_map = {
 }
 
 
-def decode(data, offset=0, size=None):
+def decode(data, offset=0, size=None, aggregated=False):
     size = len(data) if size is None else size
 
     if offset + size > len(data):
@@ -939,6 +940,8 @@ def decode(data, offset=0, size=None):
 
     ptype = (struct.unpack_from('>H', data, offset)[0] >> 6) & 0b1111
     pdu_type = pdu_type_map.get(ptype, UnknownProtocolDataUnit)
+    if aggregated and pdu_type is AggregatedFrame:
+        raise DecodeError("AGF PDU must not contain an AGF PDU")
     return pdu_type.decode(data, offset, size)
 
 
